@@ -241,7 +241,10 @@ def parent_main(a):
     W = a.workers or min(16, os.cpu_count() or 4)
     W = max(1, min(W, runs))
     detn = min(DET_SEEDS[tier], runs)
-    os.makedirs(OUT, exist_ok=True)
+    os.makedirs(REPLAYS, exist_ok=True)
+    for fn in os.listdir(REPLAYS):  # replays of earlier runs of this check are stale
+        if fn.startswith(pid + "-"):
+            os.unlink(os.path.join(REPLAYS, fn))
     tmpd = os.path.join(OUT, f"work-{pid}-{os.getpid()}")
     os.makedirs(tmpd, exist_ok=True)
     env = dict(os.environ, PYTHONHASHSEED="0", PYTHONPATH=os.path.join(VERIF, "sim"))
